@@ -244,6 +244,7 @@ func phaseClass(p string) string {
 
 // crashRun executes the scenario on crashFS and returns the crash points.
 func crashRun(sc scenario, ref *reference, scripted bool) ([]*crashPoint, *runStats, error) {
+	setScenario(sc)
 	cfs := newCrashFS()
 	var points []*crashPoint
 	var phase atomic.Value
@@ -416,7 +417,7 @@ var (
 func refFor(sc scenario) (*reference, error) {
 	refMu.Lock()
 	defer refMu.Unlock()
-	k := fmt.Sprintf("%d|%v|%d", sc.Blocks, sc.Journal, sc.big())
+	k := fmt.Sprintf("%d|%v|%d|%d", sc.Blocks, sc.Journal, sc.big(), sc.ManyTxs)
 	if r, ok := refCache[k]; ok {
 		return r, nil
 	}
@@ -481,6 +482,7 @@ func checkImage(j job) (res result) {
 	if err != nil {
 		return result{Fatal: "reference run failed: " + err.Error()}
 	}
+	setScenario(j.Scenario)
 	if j.RefDigest != "" && ref.digest != j.RefDigest {
 		return result{Fatal: "reference run differs between parent and worker process (history is not deterministic)"}
 	}
@@ -602,6 +604,7 @@ func scenarios(quick bool) []scenario {
 			{Name: "compaction-every-2", Blocks: 4, CompactEvery: 2, Big: 6000},
 			{Name: "clean-restart-after-3", Blocks: 4, RestartAfter: 3},
 			{Name: "wal-only-large-blocks", Blocks: 4, Big: 8000},
+			{Name: "block-of-130-txs", Blocks: 2, ManyTxs: 130},
 		}
 	}
 	return []scenario{
@@ -618,6 +621,8 @@ func scenarios(quick bool) []scenario {
 		{Name: "journal-wal-only", Blocks: 6, Journal: true},
 		{Name: "compaction-every-3+clean-restart-after-4", Blocks: 6, CompactEvery: 3, RestartAfter: 4, Big: 3000},
 		{Name: "wal-only-large-blocks", Blocks: 6, Big: 8000},
+		{Name: "block-of-130-txs", Blocks: 3, ManyTxs: 130},
+		{Name: "block-of-300-txs+compaction", Blocks: 3, ManyTxs: 300, CompactEvery: 2},
 	}
 }
 
@@ -679,7 +684,7 @@ func main() {
 		ref, err := refFor(sc)
 		if err != nil {
 			fmt.Println("HARNESS-ERROR: reference run:", err)
-			r.Violation("C09:harness:reference-run-fails", err.Error(), map[string]any{"scenario": sc})
+			r.Violation("C09:uninterrupted-run-differs-from-model", err.Error(), map[string]any{"scenario": sc})
 			continue
 		}
 		tRun := time.Now()
